@@ -7,6 +7,9 @@
 // unrelated error). An object is embedded at the innermost level, at the outermost level or not at
 // all. Each chain is sent through GRPCWrap and the result is asked for every one of the twelve
 // classes. The code -> class direction is enumerated over all 17 gRPC codes.
+//
+// stress_test.go adds the text-stress family: layers that carry the text of a class sentinel or of a
+// gRPC code, long texts and big embedded objects.
 package c19
 
 import (
@@ -72,6 +75,15 @@ type layer struct {
 	Shape string `json:"shape,omitempty"`
 	Pre   string `json:"pre"`
 	Suf   string `json:"suf"`
+	Rep   int    `json:"rep,omitempty"` // > 1: Pre and Suf stand for themselves repeated Rep times (long texts)
+}
+
+// texts are the texts the layer really puts in front of and behind the inner message.
+func (l layer) texts() (pre, suf string) {
+	if l.Rep > 1 {
+		return strings.Repeat(l.Pre, l.Rep), strings.Repeat(l.Suf, l.Rep)
+	}
+	return l.Pre, l.Suf
 }
 
 // sideErr is the unrelated error of the non-linear shapes: a plain text error that is in no class.
@@ -87,12 +99,12 @@ const (
 )
 
 var shapes = []layer{
-	{"two-w-side-first", shapeWWLeft, "side failure: and ", ""},
-	{"two-w-side-last", shapeWWRight, "", ": caused by side failure"},
-	{"join-side-first", shapeJoinLeft, "side failure\n", ""},
-	{"join-side-last", shapeJoinRight, "", "\nside failure"},
-	{"multi-unwrap-pointer", shapeMultiPtr, "several: side failure; ", " (2 errors)"},
-	{"multi-unwrap-slice", shapeMultiSlice, "[", " | side failure]"},
+	{"two-w-side-first", shapeWWLeft, "side failure: and ", "", 0},
+	{"two-w-side-last", shapeWWRight, "", ": caused by side failure", 0},
+	{"join-side-first", shapeJoinLeft, "side failure\n", "", 0},
+	{"join-side-last", shapeJoinRight, "", "\nside failure", 0},
+	{"multi-unwrap-pointer", shapeMultiPtr, "several: side failure; ", " (2 errors)", 0},
+	{"multi-unwrap-slice", shapeMultiSlice, "[", " | side failure]", 0},
 }
 
 // multiPtr and multiSlice implement only Unwrap() []error.
@@ -109,26 +121,26 @@ func (m multiSlice) Error() string   { return "[" + m[0].Error() + " | " + m[1].
 func (m multiSlice) Unwrap() []error { return m }
 
 var corpus = []layer{
-	{"empty", "", "", ""},
-	{"colons", "", "a: b:: c:", ""},
-	{"json-text", "", `{"k":"v","n":[1,2.5e3],"o":{"x":null}}: `, ""},
-	{"esc", "", "\x1b", ""},        // the marker's first byte directly in front of the inner text
-	{"json-word", "", "json", ""},  // the marker's tail directly in front of the inner text
-	{"esc-jso", "", "\x1bjso", ""}, // all of the marker but its last byte
-	{"son-esc", "", "son\x1b", ""}, // tail + head
-	{"unicode", "", "héllo wörld ✓ 日本語 \U0001F642: ", ""},
-	{"newlines", "", "line1\nline2\r\n\t: ", "\n"},
-	{"suffix-esc", "", "", "\x1b"}, // inner text directly followed by the marker's first byte
-	{"suffix-json-word", "", "(", ")json"},
-	{"looks-like-grpc", "", "rpc error: code = NotFound desc = 100%: ", ""},
+	{"empty", "", "", "", 0},
+	{"colons", "", "a: b:: c:", "", 0},
+	{"json-text", "", `{"k":"v","n":[1,2.5e3],"o":{"x":null}}: `, "", 0},
+	{"esc", "", "\x1b", "", 0},        // the marker's first byte directly in front of the inner text
+	{"json-word", "", "json", "", 0},  // the marker's tail directly in front of the inner text
+	{"esc-jso", "", "\x1bjso", "", 0}, // all of the marker but its last byte
+	{"son-esc", "", "son\x1b", "", 0}, // tail + head
+	{"unicode", "", "héllo wörld ✓ 日本語 \U0001F642: ", "", 0},
+	{"newlines", "", "line1\nline2\r\n\t: ", "\n", 0},
+	{"suffix-esc", "", "", "\x1b", 0}, // inner text directly followed by the marker's first byte
+	{"suffix-json-word", "", "(", ")json", 0},
+	{"looks-like-grpc", "", "rpc error: code = NotFound desc = 100%: ", "", 0},
 }
 
 // layer texts added in the thorough tier
 var corpusThorough = []layer{
-	{"plain", "", "cannot do it: ", ""},
-	{"suffix-jso", "", "", " \x1bjso"},
-	{"esc-j", "", "\x1bj", ""}, // meets "son..." to form the complete marker: such chains are excluded
-	{"long", "", strings.Repeat("0123456789abcdef", 64) + ": ", ""},
+	{"plain", "", "cannot do it: ", "", 0},
+	{"suffix-jso", "", "", " \x1bjso", 0},
+	{"esc-j", "", "\x1bj", "", 0}, // meets "son..." to form the complete marker: such chains are excluded
+	{"long", "", strings.Repeat("0123456789abcdef", 64) + ": ", "", 0},
 }
 
 func (l layer) wrap(inner error) error {
@@ -147,7 +159,8 @@ func (l layer) wrap(inner error) error {
 		return multiSlice{inner, sideErr}
 	}
 	esc := func(s string) string { return strings.ReplaceAll(s, "%", "%%") }
-	return fmt.Errorf(esc(l.Pre)+"%w"+esc(l.Suf), inner)
+	pre, suf := l.texts()
+	return fmt.Errorf(esc(pre)+"%w"+esc(suf), inner)
 }
 
 // objects that get embedded
@@ -229,6 +242,11 @@ func objectByName(n string) *object {
 	for i := range objects {
 		if objects[i].name == n {
 			return &objects[i]
+		}
+	}
+	for i := range bigObjects {
+		if bigObjects[i].name == n {
+			return &bigObjects[i]
 		}
 	}
 	return nil
@@ -358,7 +376,7 @@ func checkChain(ci int, err error, emb string, obj *object, seen map[string]int)
 				return
 			}
 		}
-		out = append(out, finding{sig, fmt.Sprintf(format, args...)})
+		out = append(out, finding{sig, clip(fmt.Sprintf(format, args...))})
 	}
 	var g, g2 error
 	if f := guarded("GRPCWrap", func() { g = gerrors.GRPCWrap(err) }); f != nil {
@@ -480,6 +498,23 @@ func checkCode(code codes.Code, msg string) (out []finding) {
 	return
 }
 
+// checkCodeSame: "maps back to exactly one class" - the class is a function of the code, whatever the
+// message says: the message msg gives the same class as the reference message ref.
+func checkCodeSame(code codes.Code, msg, ref string) (out []finding) {
+	var r, first error
+	if guarded("FromGRPCError", func() {
+		r = gerrors.FromGRPCError(status.Error(code, msg))
+		first = gerrors.FromGRPCError(status.Error(code, ref))
+	}) != nil {
+		return nil // reported by checkCode
+	}
+	if r != first {
+		out = append(out, finding{"errors/from-grpc/class-depends-on-message/" + code.String(),
+			clip(fmt.Sprintf("FromGRPCError(status.Error(%v, %q))=%v but FromGRPCError(status.Error(%v, %q))=%v: the code maps back to two classes", code, msg, r, code, ref, first))})
+	}
+	return
+}
+
 // checkRoundTrip: the code of a coded class maps back to that class.
 func checkRoundTrip(ci int) (out []finding) {
 	c := classes[ci]
@@ -504,6 +539,8 @@ const maxDepth = 4
 type counters struct {
 	chains, tuples, pruned, embInner, embOuter, embNone int64
 	shapeChains, osChains, pctChains                    int64
+	stressChains, classTextChains, codeTextChains       int64 // the text-stress family, see stress.go
+	longTextChains, bigObjChains, maxMsg                int64
 	byDepth                                             [maxDepth + 1]int64
 	seen                                                map[string]int
 }
@@ -518,6 +555,12 @@ func (c *counters) add(o *counters) {
 	c.shapeChains += o.shapeChains
 	c.osChains += o.osChains
 	c.pctChains += o.pctChains
+	c.stressChains += o.stressChains
+	c.classTextChains += o.classTextChains
+	c.codeTextChains += o.codeTextChains
+	c.longTextChains += o.longTextChains
+	c.bigObjChains += o.bigObjChains
+	c.maxMsg = max(c.maxMsg, o.maxMsg)
 	for i := range c.byDepth {
 		c.byDepth[i] += o.byDepth[i]
 	}
@@ -635,7 +678,8 @@ func TestCheck(t *testing.T) {
 	run.Rule("distinct (innermost error {class sentinel, real OS error of the class}, asked class, wrapping chain, embedding {none, inner x object, outer x object}) tuples for which Is(GRPCWrap(chain), asked class) was evaluated, plus distinct (gRPC code, message) pairs of the code -> class direction; the enumeration visits each tuple once. " +
 		"Chains: every sequence of depth <= 3 over the alphabet {single-%w x corpus texts, two-%w with the class last, two-%w with the class first, errors.Join with the class last / first, pointer type with Unwrap() []error, slice type with Unwrap() []error}, plus every depth-4 sequence of single-%w texts. " +
 		"Objects: 3 crossed with every chain; 7 whose JSON contains '%' crossed with the chains of depth <= 2. " +
-		"Real OS errors (produced at run time): chains of depth <= 3 without object, depth <= 2 with the objects hostile-struct and pct-struct")
+		"Real OS errors (produced at run time): chains of depth <= 3 without object, depth <= 2 with the objects hostile-struct and pct-struct. "+
+		"Text-stress family: chains of depth <= 2 (thorough 3) with exactly one layer whose text is the text of one of the twelve class sentinels (first, last, quoted), the rendering of one of the 17 gRPC codes, or a long text (5 KB, 70 KB), the other layers from the alphabet above, with the 3 objects and two big objects (JSON of 5 KB and 70 KB; those also under plain chains); the code -> class direction also over messages that are / end with / start with each class text and long messages, and the class of a code must not depend on the message")
 	run.Assume("the layer texts contain parts of the embed marker but a chain whose text (without the embedding) contains the complete marker \\x1bjson - possible only where two corpus texts meet - is outside EmbedObject's contract and is not generated (counted in chains_excluded_marker_formed)")
 	run.Assume("'classes that have a gRPC code' are the ten keys of errorsToCode; ErrClosed and ErrCommunication take part as asked classes only")
 	run.Assume("idempotence of GRPCWrap is judged on code, status message and Error() text, not on pointer identity; the object is compared after JSON decoding into its own type")
@@ -818,19 +862,33 @@ func TestCheck(t *testing.T) {
 	close(units)
 	wg.Wait()
 
+	// the text-stress family (stress_test.go)
+	var osStress []root
+	for _, rt := range allOS {
+		if rt.qualifies() && classes[rt.ci].coded {
+			osStress = append(osStress, rt)
+		}
+	}
+	stressNames, problem := runStress(run, osStress, &total, &repeats)
+	if problem != "" {
+		run.Inconclusive(problem)
+		return
+	}
+
 	// code -> class
 	var msgs []string
 	for _, l := range corpus {
 		msgs = append(msgs, l.Pre+"x"+l.Suf)
 	}
 	msgs = append(msgs, "", marker+`{"a":1}`+marker+": embedded")
+	msgs = append(msgs, stressMessages()...)
 	codePairs := 0
 	for code := codes.OK; code <= codes.Unauthenticated; code++ {
 		for _, m := range msgs {
 			codePairs++
 			run.Eval(1)
-			for _, f := range checkCode(code, m) {
-				c := int(code)
+			c := int(code)
+			for _, f := range append(checkCode(code, m), checkCodeSame(code, m, msgs[0])...) {
 				run.Violation(f.sig, f.what, kase{Code: &c, Msg: m})
 			}
 		}
@@ -856,6 +914,12 @@ func TestCheck(t *testing.T) {
 	run.Add("chains_with_a_percent_object", total.pctChains)
 	run.Add("chains_excluded_marker_formed", total.pruned)
 	run.Add("class_pairs_asked", total.tuples)
+	run.Add("stress_chains", total.stressChains)
+	run.Add("stress_chains_with_the_text_of_a_class", total.classTextChains)
+	run.Add("stress_chains_with_the_text_of_a_grpc_code", total.codeTextChains)
+	run.Add("stress_chains_with_a_long_text", total.longTextChains)
+	run.Add("stress_chains_with_a_big_object", total.bigObjChains)
+	run.Max("longest_chain_message_bytes", total.maxMsg)
 	run.Add("code_message_pairs", int64(codePairs))
 	run.Add("repeated_findings_not_reported_again", repeats)
 	run.Note("chains_by_depth", total.byDepth)
@@ -872,12 +936,16 @@ func TestCheck(t *testing.T) {
 		"objects": objNames, "grpc_codes": 17, "messages_per_code": len(msgs),
 	})
 	run.Note("layers", layerNames)
+	run.Note("stress_layers", stressNames)
 	run.Note("os_errors_used", osUsed)
 	run.Note("os_errors_not_used", osNotUsed)
 	run.Note("os_errors_of_a_class_without_code_not_judged", uncoded)
 	run.Sample(fmt.Sprintf("code direction: status.Error(Aborted, %q) -> %v", msgs[3], gerrors.FromGRPCError(status.Error(codes.Aborted, msgs[3]))))
 	if total.embInner == 0 || total.embOuter == 0 || total.byDepth[maxDepth] == 0 || total.shapeChains == 0 || total.pctChains == 0 {
 		run.Inconclusive("a part of the space was not visited")
+	}
+	if total.classTextChains == 0 || total.codeTextChains == 0 || total.longTextChains == 0 || total.bigObjChains == 0 || total.maxMsg < 65536 {
+		run.Inconclusive("a part of the text-stress family was not visited")
 	}
 	if len(osUsed) < 4 || total.osChains == 0 {
 		run.Inconclusive(fmt.Sprintf("too few real OS errors could be produced (%d)", len(osUsed)))
@@ -904,7 +972,7 @@ func replay(run *report.Run, path string, roots []root) {
 	var fs []finding
 	switch {
 	case k.Code != nil:
-		fs = checkCode(codes.Code(*k.Code), k.Msg)
+		fs = append(checkCode(codes.Code(*k.Code), k.Msg), checkCodeSame(codes.Code(*k.Code), k.Msg, "x")...)
 	default:
 		ci, ok := classByName(k.Class)
 		if !ok {
